@@ -22,9 +22,19 @@
 
 #include "galois/config.h"
 
+#ifdef GALOIS_VERIF
+// verification hook: tells a schedule-controlling test runtime (if one is
+// linked) that the caller is in a spin-wait loop
+extern "C" void galois_verif_spin() __attribute__((weak));
+#endif
+
 namespace galois::substrate {
 
 inline static void asmPause() {
+#ifdef GALOIS_VERIF
+  if (galois_verif_spin)
+    galois_verif_spin();
+#endif
 #if defined(__i386__) || defined(__amd64__)
   //  __builtin_ia32_pause();
   asm volatile("pause");
